@@ -139,7 +139,8 @@ def R6(inp, N, n, obs=0):
     if p.role == L:
         grew = And(success, idx - 1 > p.match[s])
         cl['match_rule'] = Eq(q.match[s], Ite(grew, idx - 1, p.match[s]))
-        cl['next_rule'] = Eq(q.next[s], Ite(Or(reset, grew), idx, p.next[s]))
+        # growth sets nextIndex to the reply's index; a rejection (reset) may only move it down to the reply's hint
+        cl['next_rule'] = Ite(grew, Eq(q.next[s], idx), Ite(reset, Or(Eq(q.next[s], idx), Eq(q.next[s], Min(p.next[s], idx))), Eq(q.next[s], p.next[s])))
         cl['response_time_now'] = Eq(q.resp.get(s), now)
         cl['others_untouched'] = And([And(Eq(q.match[k], p.match[k]), Eq(q.next[k], p.next[k])) for k in p.match if k != s] +
                                      [Eq(q.resp[k], p.resp[k]) for k in p.resp if k != s])
